@@ -59,7 +59,8 @@ def short(name):
 
 class Weigher:
     def __init__(self, attr_seeds, sym_seeds=None, opaque_specs=None,
-                 default_attr=ZERO, name='L', assume_zero_attrs=True, loops=None):
+                 default_attr=ZERO, name='L', assume_zero_attrs=True, loops=None,
+                 mode='mult'):
         self.attr_seeds = dict(attr_seeds)
         self.sym_seeds = dict(sym_seeds or {})
         self.opaque_specs = dict(opaque_specs or {})
@@ -70,6 +71,7 @@ class Weigher:
         self.assumed = set()    # attribute names defaulted to weight 0
         self.assume_zero_attrs = assume_zero_attrs
         self.loops = loops or {}
+        self.mode = mode     # 'mult': scaling exponents; 'affine': additive charges
 
     # -- diagnostics -----------------------------------------------------
     def conflict(self, msg, t):
@@ -161,6 +163,14 @@ class Weigher:
         if isinstance(a, tuple) and isinstance(b, tuple) and a[0] == b[0] == 'T':
             r = self.combine(a[1], b[1], t, sign)
             return ('T', r) if r != UNK else UNK
+        if isinstance(a, tuple) and isinstance(b, tuple) and a[0] == 'T' and \
+                b[0] == 'seq' and a[1][0] == 'seq' and len(a[1][1]) == len(b[1]):
+            r = self.combine(a[1], b, t, sign)
+            return ('T', r) if r != UNK else UNK
+        if isinstance(a, tuple) and isinstance(b, tuple) and b[0] == 'T' and \
+                a[0] == 'seq' and b[1][0] == 'seq' and len(b[1][1]) == len(a[1]):
+            r = self.combine(a, b[1], t, sign)
+            return ('T', r) if r != UNK else UNK
         return self.unknown('cannot combine %r and %r in %s' % (a, b, show(t)[:100]), t)
 
     def uniform(self, a, t):
@@ -208,6 +218,8 @@ class Weigher:
     def _w(self, t):
         k = t[0]
         if k == 'num':
+            if self.mode == 'affine':
+                return ZERO
             return ANY if t[1] == 0 else ZERO
         if k == 'I':
             return ZERO
@@ -323,7 +335,10 @@ class Weigher:
         if k == 'comp':
             for g in t[3]:
                 self.w(g[1])
-            return self.uniform(self.w(t[2]), t)
+            e = self.w(t[2])
+            if isinstance(e, tuple) and e[0] == 'seq' and len(set(e[1])) > 1:
+                return ('T', e)       # rows with per-column weights
+            return self.uniform(e, t)
         if k == 'bound':
             return self.unknown('bound variable %s' % t[1], t)
         if k in ('SUM', 'MEAN'):
@@ -424,6 +439,8 @@ class Weigher:
     # -- arithmetic ----------------------------------------------------------
     def w_bin(self, t):
         op, a, b = t[1], self.w(t[2]), self.w(t[3])
+        if self.mode == 'affine':
+            return self.w_bin_affine(t, op, a, b)
         if op in ('+', '-'):
             if a == NA and b == NA:
                 return NA
@@ -450,6 +467,35 @@ class Weigher:
         if op in ('&', '|', '^', '<<', '>>'):
             return ZERO
         return self.unknown('operator %s' % op, t)
+
+    def is_inv(self, a, t):
+        return self.uniform(a, t) in (ZERO, ANY)
+
+    def w_bin_affine(self, t, op, a, b):
+        """additive charges: x -> x + c*shift"""
+        if a == NA and b == NA:
+            return NA
+        if a == NA:
+            a = ZERO
+        if b == NA:
+            b = ZERO
+        if op == '+':
+            return self.combine(a, b, t, +1)
+        if op == '-':
+            return self.combine(a, b, t, -1)
+        if a == UNK or b == UNK:
+            return UNK
+        if self.is_inv(a, t) and self.is_inv(b, t):
+            return ZERO
+        if op in ('*', '/', '//', '@', '**'):
+            # (x + a) * k = x*k + a*k: the charge becomes k -- not modelled
+            return self.unknown('a %s-charged value is scaled before it is '
+                                'differenced: %s' % (self.name, show(t)[:160]), t)
+        if op == '%':
+            if self.is_inv(b, t):
+                return a       # (phi + c) mod period keeps the charge
+            return self.unknown('modulus by a charged value', t)
+        return self.unknown('operator %s on charged values' % op, t)
 
     # -- calls -----------------------------------------------------------------
     def args_dimensionless(self, t, args, what):
@@ -489,6 +535,23 @@ class Weigher:
 
     def w_named(self, t, full, name, args, kws, method=False):
         kwvals = [v for k, v in kws]
+        if self.mode == 'affine':
+            if name in ('sum', 'nansum', 'cumsum', 'abs', 'absolute', 'norm', 'fabs',
+                        'negative', 'conj', 'conjugate', 'imag'):
+                ok = self.args_dimensionless(t, args[:1], name)
+                return ZERO if ok else UNK
+            if name in ('diff', 'ptp', 'std', 'var'):
+                a = self.uniform(self.w(args[0]), t) if args else ZERO
+                return UNK if a == UNK else ZERO
+        if name in ('mean', 'max', 'min', 'sum', 'median') and args:
+            a0 = self.w(args[0])
+            if isinstance(a0, tuple) and a0[0] == 'T':
+                ax = args[1] if len(args) > 1 else dict(kws).get('axis')
+                if ax is not None and is_num(ax) and ax[1] == 0:
+                    if name == 'sum' and self.mode == 'affine' and \
+                            not self.is_inv(a0, t):
+                        return self.unknown('sum of charged rows', t)
+                    return a0[1]
         if name in SAME:
             if not args:
                 return ANY
